@@ -67,6 +67,47 @@ class Mon:
         c = self.res['counters']
         c[k] = c.get(k, 0) + n
 
+
+    def confirm_taint(self, cpu, kind, word, desc, changed, ctxkey):
+        from vf import machine as M
+        from vf.common import exc_signature
+        scen = self.scen
+        home = int(desc['cpsr'], 16)
+        hints = ([0xE320F000 | h for h in (0, 1, 2, 3, 4)] if kind == 'arm' else [0xBF00 | (h << 4) for h in (0, 1, 2, 3, 4)])
+        seq = [(kind, word, ev) for ev in (False, True, False)] + [('arm' if kind == 'arm' else 't16', h, False) for h in hints]
+        seq += [(kind, word, False)]
+        hist = ['%s %#x' % (kind, word)]
+        for k2, w2, ev in seq:
+            try:
+                cpu.registers.cpsr.value = home
+                cpu.registers.branch_to(scen.CODE)
+                M.put_code(cpu, scen.CODE, w2, k2)
+                cpu.registers.event_register = ev
+                r, sig = scen.step(cpu)
+            except Exception as ex:
+                r, sig = 'host', exc_signature(ex)
+            hist.append('%s %#x (event register %s)' % (k2, w2, ev))
+            self.res['evaluations'] += 1
+            self.bump('confirmation_steps_after_attribute_change')
+            if r == 'host':
+                key = 'C18|%s|%s:%s|after-a-step-changed-%s' % (sig[0], sig[1].split('/')[-1], sig[2], ','.join(changed)[:40])
+                if key not in self.viol:
+                    self.viol[key] = dict(key=key, desc='%s at %s:%s line %s on the same instance after a step had changed %s: history %s (%s)' % (
+                        sig[0], sig[1], sig[2], sig[3], changed[:4], hist, ctxkey), replay=dict(desc, history=hist), count=0)
+                self.viol[key]['count'] += 1
+                self.bump('outcome_host_error')
+                return
+        try:
+            cpu.take_reset()
+        except NotImplementedError:
+            pass
+        except Exception as ex:
+            sig = exc_signature(ex)
+            key = 'C18|%s|%s:%s|take_reset-after-a-step-changed-%s' % (sig[0], sig[1].split('/')[-1], sig[2], ','.join(changed)[:40])
+            if key not in self.viol:
+                self.viol[key] = dict(key=key, desc='take_reset() after a step had changed %s: %s' % (changed[:4], sig), replay=dict(desc, history=hist), count=0)
+            self.viol[key]['count'] += 1
+
     def one(self, kind, word, tag, itpos=None, ctxkey=None, mode=None):
         from vf import observe
         rng = self.rng
@@ -100,13 +141,13 @@ class Mon:
         tm1 = type_map(cpu)
         self.bump('type_audits')
         if tm1 != tm0:
+            # not itself a violation of the property (no host error yet): the SAME instance is driven on — the same word again
+            # with the Event Register clear and set, the hint instructions, a reset — and only a host error that follows is
+            # reported, with the two-step history as its witness
             changed = sorted(set(tm0) ^ set(tm1)) + sorted(k_ for k_ in tm0 if k_ in tm1 and tm0[k_] != tm1[k_])
-            key = 'C18|object-attribute-added-or-retyped|%s' % ','.join(changed)[:80]
-            if key not in self.viol:
-                self.viol[key] = dict(key=key, desc='a step changed the attribute set / types of the processor object: %s (word %s, %s)' % (
-                    changed[:4], desc['word'], kind), replay=dict(desc), count=0)
-            self.viol[key]['count'] += 1
-            # the shared context object is now tainted: rebuild it
+            self.bump('steps_that_changed_the_attribute_set_or_types')
+            self.res['sets'].setdefault('attributes_added_or_retyped_by_a_step', set()).add(','.join(changed)[:80])
+            self.confirm_taint(cpu, kind, word, desc, changed, ctxkey)
             self.ctxs.pop(ctxkey, None)
         executed = type(cpu.executed_opcode).__name__
         post_mode = cpu.registers.cpsr.m
@@ -293,45 +334,49 @@ def sysregs(mon, spec):
                 if o4 >> 1 == opc1:
                     words.append(base)                    # MCRR
                     words.append(base | (1 << 20))        # MRRC
-        for i, w in enumerate(words):
-            try:
-                cpu.registers.cpsr.value = home
-                cpu.registers.branch_to(scen.CODE)
-                M.put_code(cpu, scen.CODE, w, 't32' if thumb else 'arm')
-            except Exception as ex:
-                key = 'C18|state-corrupted|%s' % type(ex).__name__
-                if key not in mon.viol:
-                    mon.viol[key] = dict(key=key, desc='harness could not reposition the instance before word %#x of the '
-                                         'system-register sweep (%s): %r' % (w, ctxkey, ex), count=0,
-                                         replay=dict(desc, sweep=[hex(x) for x in words[max(0, i - 4):i + 1]]))
-                mon.viol[key]['count'] += 1
-                break
-            k, sig = scen.step(cpu)
-            mon.res['evaluations'] += 1
-            mon.bump('sysreg_steps')
-            if k == 'host':
-                key = 'C18|%s|%s:%s' % (sig[0], sig[1].split('/')[-1], sig[2])
-                if key not in mon.viol:
-                    mon.viol[key] = dict(key=key, desc='%s at %s:%s line %s; system-register sweep word %#x (%s) after %s on %s' % (
-                        sig[0], sig[1], sig[2], sig[3], w, 'thumb' if thumb else 'arm', hex(words[i - 1]) if i else '-', ctxkey),
-                        count=0, replay=dict(desc, sweep=[hex(x) for x in words[max(0, i - 4):i + 1]]))
-                mon.viol[key]['count'] += 1
-                mon.bump('outcome_host_error')
-            else:
-                mon.bump('sysreg_outcome_' + k)
-            if i % 64 == 63 or i == len(words) - 1:
-                tm = type_map(cpu)
-                if tm != tm0:
-                    changed = sorted(k_ for k_ in tm0 if tm.get(k_) != tm0[k_])[:4]
-                    key = 'C18|register-object-replaced|%s' % ','.join(changed)
+        tainted = False
+        for pass_ in range(2):
+            if pass_ == 1:
+                if not tainted:
+                    break
+                mon.bump('confirmation_sweeps_after_attribute_change')
+            for i, w in enumerate(words):
+                try:
+                    cpu.registers.cpsr.value = home
+                    cpu.registers.branch_to(scen.CODE)
+                    M.put_code(cpu, scen.CODE, w, 't32' if thumb else 'arm')
+                except Exception as ex:
+                    key = 'C18|state-corrupted|%s' % type(ex).__name__
                     if key not in mon.viol:
-                        mon.viol[key] = dict(key=key, desc='register-file attribute(s) %s changed type (%s -> %s) during the sweep '
-                                             'before word %#x on %s' % (changed, [tm0[c] for c in changed], [tm.get(c) for c in changed],
-                                                                        w, ctxkey), count=0,
-                                             replay=dict(desc, sweep=[hex(x) for x in words[max(0, i - 64):i + 1]]))
+                        mon.viol[key] = dict(key=key, desc='harness could not reposition the instance before word %#x of the '
+                                             'system-register sweep (%s): %r' % (w, ctxkey, ex), count=0,
+                                             replay=dict(desc, sweep=[hex(x) for x in words[max(0, i - 4):i + 1]]))
                     mon.viol[key]['count'] += 1
-                    tm0 = tm
-                mon.bump('type_audits')
+                    break
+                k, sig = scen.step(cpu)
+                mon.res['evaluations'] += 1
+                mon.bump('sysreg_steps')
+                if k == 'host':
+                    key = 'C18|%s|%s:%s' % (sig[0], sig[1].split('/')[-1], sig[2])
+                    if key not in mon.viol:
+                        mon.viol[key] = dict(key=key, desc='%s at %s:%s line %s; system-register sweep word %#x (%s) after %s on %s' % (
+                            sig[0], sig[1], sig[2], sig[3], w, 'thumb' if thumb else 'arm', hex(words[i - 1]) if i else '-', ctxkey),
+                            count=0, replay=dict(desc, sweep=[hex(x) for x in words[max(0, i - 4):i + 1]]))
+                    mon.viol[key]['count'] += 1
+                    mon.bump('outcome_host_error')
+                else:
+                    mon.bump('sysreg_outcome_' + k)
+                if i % 64 == 63 or i == len(words) - 1:
+                    tm = type_map(cpu)
+                    if tm != tm0:
+                        changed = sorted(k_ for k_ in tm0 if tm.get(k_) != tm0[k_])[:4]
+                        # not itself a violation: the sweep goes on over the same instance (and is repeated once more
+                        # below), so a host error caused by the replaced object is what gets reported
+                        mon.bump('sweeps_that_retyped_a_register_attribute')
+                        mon.res['sets'].setdefault('attributes_added_or_retyped_by_a_step', set()).add(','.join(changed)[:80])
+                        tainted = True
+                        tm0 = tm
+                    mon.bump('type_audits')
         mon.res['nontrivial'].add('sysregs|cp%d|opc1=%d|%s|%s|%s|%s' % (cp, opc1, ctxkey[0], 'thumb' if thumb else 'arm', mode,
                                                                            'flipped' if flipped else 'reset'))
         # the instance must still reset and run ordinary code
@@ -392,11 +437,10 @@ def programs(mon, spec):
         mon.bump('type_audits')
         if tm != tm0:
             changed = sorted(k_ for k_ in tm0 if tm.get(k_) != tm0[k_])[:4]
-            key = 'C18|register-object-replaced|%s' % ','.join(changed)
-            if key not in mon.viol:
-                mon.viol[key] = dict(key=key, desc='register-file attribute(s) %s changed type during a program on %s' % (changed, ctxkey),
-                                     count=0, replay=dict(desc, program=blob.hex(), vectors=True, steps=len(trace), note='program'))
-            mon.viol[key]['count'] += 1
+            # not itself a violation: the instance is kept for the following programs of this shard, where a host error
+            # caused by the replaced object is reported under its own key
+            mon.bump('programs_that_retyped_a_register_attribute')
+            mon.res['sets'].setdefault('attributes_added_or_retyped_by_a_step', set()).add(','.join(changed)[:80])
 
 
 def replay(data):
